@@ -12,7 +12,8 @@ use crate::sx;
 use indexmap::IndexMap;
 use rooc::model_transformer::{Constraint, DomainVariable, Exp};
 use rooc::verif_hooks::{analyze_bounds, linearizer_bounds};
-use rooc::{BinOp, Comparison, InputSpan, UnOp, VariableType};
+use rooc::{BinOp, Comparison, InputSpan, Linearizer, OptimizationType, UnOp, VariableType};
+use crate::gen_model::{self, VarDecl};
 
 const TOL: f64 = 1e-9; // bounds.rs DEFAULT_TOLERANCE (private there; a change shows up as a diff)
 const INF: f64 = f64::INFINITY;
@@ -191,6 +192,82 @@ fn run_lin(inst: &Inst) -> Option<Case> {
     c.tags = vec!["linearizer-path".to_string(), format!("lin-{}", inst.tags[0])];
     c.tags.push(if c.nontrivial { "lin-tightened".into() } else { "lin-declared".into() });
     let mut show = String::from("[linearizer path] ");
+    for (n, t) in &inst.domain { show.push_str(&format!("{} as {:?}; ", n, t)); }
+    show.push_str("s.t. ");
+    for x in &inst.constraints { show.push_str(&format!("{} {} {}; ", x.lhs(), x.constraint_type(), x.rhs())); }
+    c.show = show;
+    Some(c)
+}
+
+/// the same instance through the REAL `Linearizer::linearize(model)` (objective `solve 0`): every domain of the
+/// resulting `LinearModel` — declared variables AND the auxiliaries `$abs_k/$min_k/$max_k`, whose declared range is
+/// the compiler's claim about a sub-expression — is compared bit for bit with the composed Lean pipeline
+/// (`Compile.linearize`: normalisation, `analyze`, `enforceable`, `apply_to_domain`, lowering); the exact oracle
+/// tests the published domains of the declared variables against the source-feasible points of the normalised model.
+fn run_compiled(inst: &Inst) -> Option<Case> {
+    if inst.domain.iter().any(|(n, _)| n.starts_with('$')) { return None; }
+    let ds: Vec<VarDecl> = inst.domain.iter().map(|(n, t)| VarDecl { name: n.clone(), ty: *t }).collect();
+    let model = gen_model::build(OptimizationType::Satisfy, Exp::Number(0.0), inst.constraints.clone(), &ds);
+    // undeclared variables make the front end fail earlier; keep to declared ones
+    let mut used = vec![];
+    for c in &inst.constraints { names(c.lhs(), &mut used); names(c.rhs(), &mut used); }
+    if used.iter().any(|n| !inst.domain.iter().any(|(m, _)| m == n)) { return None; }
+    let raw = inst.constraints.clone();
+    let norm = std::panic::catch_unwind(|| {
+        raw.iter().map(|c| {
+            let n = |e: &Exp| e.clone().simplify().flatten().simplify();
+            if c.is_logic_assertion() { Constraint::new_logic_assertion(n(c.lhs()), c.name().to_string()) }
+            else { Constraint::new(n(c.lhs()), c.constraint_type(), n(c.rhs()), c.name().to_string()) }
+        }).collect::<Vec<_>>()
+    }).ok()?;
+    let mut c = Case::default();
+    c.req = format!("compile-domains {} {}", sx::model(&model), sx::num(TOL));
+    let res = std::panic::catch_unwind(std::panic::AssertUnwindSafe(|| Linearizer::linearize(model.clone())));
+    let mut kind = "compiled";
+    match res {
+        Ok(Ok(lm)) => {
+            let canon_dom = |d: &IndexMap<String, DomainVariable>| {
+                let mut dom = d.clone();
+                for (_, v) in dom.iter_mut() {
+                    let t = canon_ty(v.get_type());
+                    let mut nd = DomainVariable::new(t, InputSpan::default());
+                    for _ in 0..v.usage_count() { nd.increment_usage(); }
+                    *v = nd;
+                }
+                dom
+            };
+            let published = canon_dom(lm.domain());
+            c.imp = format!("(ok {})", sx::domain(&published));
+            c.nontrivial = lm.variables().iter().any(|v| v.starts_with('$'));
+            if c.nontrivial { kind = "compiled-aux"; }
+            // pseudo report for the oracle: the published domain of every declared variable (declared one if it was dropped)
+            let src = model.domain();
+            let mut vars = String::from("(vars");
+            let mut dom = IndexMap::new();
+            for (n, dv) in src {
+                let t = published.get(n).map(|p| *p.get_type()).unwrap_or(*dv.get_type());
+                let (lo, hi) = match t {
+                    VariableType::Boolean => (0.0, 1.0),
+                    VariableType::IntegerRange(a, b) => (a as f64, b as f64),
+                    VariableType::NonNegativeReal(a, b) | VariableType::Real(a, b) => (a, b),
+                };
+                vars.push(' '); vars.push_str(&b(lo, hi));
+                let mut nd = DomainVariable::new(canon_ty(&t), InputSpan::default());
+                for _ in 0..dv.usage_count() { nd.increment_usage(); }
+                dom.insert(n.clone(), nd);
+            }
+            vars.push(')');
+            let mut tail = format!("{} {} (constraints", sx::num(TOL), sx::domain(src));
+            for x in &norm { tail.push(' '); tail.push_str(&sx::constraint(x)); }
+            tail.push(')');
+            c.oracle = format!("check-lin {} (ok {} (exprs) {})", tail, vars, sx::domain(&dom));
+        }
+        // which error, and whether the port agrees on it, is C01's subject (detailed error diff there)
+        Ok(Err(_)) => { c.imp = "(err)".into(); c.req = String::new(); kind = "compile-error"; }
+        Err(_) => { c.imp = "(panic)".into(); c.impl_violation = Some("Linearizer::linearize panicked".into()); kind = "compile-panic"; }
+    }
+    c.tags = vec!["real-linearize".to_string(), format!("real-{}", inst.tags[0]), kind.to_string()];
+    let mut show = String::from("[Linearizer::linearize] ");
     for (n, t) in &inst.domain { show.push_str(&format!("{} as {:?}; ", n, t)); }
     show.push_str("s.t. ");
     for x in &inst.constraints { show.push_str(&format!("{} {} {}; ", x.lhs(), x.constraint_type(), x.rhs())); }
@@ -458,9 +535,16 @@ fn s_tolerance(r: &mut Rng) -> Inst {
             cs.push(row(v("y"), Comparison::GreaterOrEqual, k(kk + delta(r)), 0));
             cs.push(row(v("y"), Comparison::LessOrEqual, k(kk + 2.0 + delta(r)), 1));
         }
-        4 => { // nearly empty integer interval
+        4 => { // nearly empty integer interval (`enforceable` falls back to the declared box), with a non-convex
+               // piecewise row so that the compiled model declares an auxiliary whose range is read from the box
             cs.push(row(v("y"), Comparison::GreaterOrEqual, k(kk + 0.3), 0));
             cs.push(row(v("y"), Comparison::LessOrEqual, k(kk + 0.6), 1));
+            match r.below(4) {
+                0 => cs.push(row(abs(sub(v("y"), k(0.5))), Comparison::GreaterOrEqual, k(0.25), 2)),
+                1 => cs.push(row(Exp::Max(vec![v("y"), mul(k(0.5), v("x"))]), Comparison::GreaterOrEqual, k(kk - 1.0), 2)),
+                2 => cs.push(row(Exp::Min(vec![v("y"), v("x")]), Comparison::LessOrEqual, abs(v("y")), 2)),
+                _ => {}
+            }
         }
         5 => { // equality against an interval that misses by delta
             domain[0].1 = VariableType::Real(kk, kk + 1.0);
@@ -583,6 +667,30 @@ fn s_magnitude(r: &mut Rng) -> Inst {
     let cs = vec![row(lhs.clone(), op, rhs, 0)];
     let exprs = vec![lhs, add(v(&x), sub(k(big), k(big))), sub(add(v(&x), k(big)), k(big))];
     Inst { domain, constraints: cs, exprs, tags: vec!["magnitude".into()] }
+}
+
+/// `c*x + c*j ⋈ c*(n+j)` with inexact decimal `c`: the propagated bound lands an ulp or two beside the integer `n`, so the
+/// published integer range is right only because `apply_to_domain` rounds within the tolerance
+fn s_intulp(r: &mut Rng) -> Inst {
+    let c = *r.pick(&[0.1, 0.3, 0.7, 1.9, 2.7, 1.1, 3.3, 0.07, 0.9, 1.3, 4.1]);
+    // half of the instances use powers of two for j and n + j: then c*j and c*(n+j) are exact, the row holds with
+    // equality at x = n in exact arithmetic, and a published range that misses n has a concrete feasible witness
+    let (j, n) = if r.chance(1, 2) {
+        let j = *r.pick(&[1.0, 2.0, 4.0]);
+        let s = *r.pick(&[2.0, 4.0, 8.0, 16.0]);
+        if s > j && s - j <= 10.0 { (j, s - j) } else { (1.0, 3.0) }
+    } else { (r.range(0, 6) as f64, r.range(1, 9) as f64) };
+    let lo_side = r.chance(1, 2);
+    let op = if lo_side { Comparison::GreaterOrEqual } else { Comparison::LessOrEqual };
+    let lhs = match r.below(3) {
+        0 => add(mul(k(c), v("x")), k(c * j)),
+        1 => sub(mul(k(c), v("x")), k(-(c * j))),
+        _ => add(k(c * j), mul(v("x"), k(c))),
+    };
+    let mut cs = vec![row(lhs, op, k(c * (n + j)), 0)];
+    if r.chance(1, 2) { cs.push(row(mul(k(c), v("y")), Comparison::Equal, mul(k(c), v("x")), 1)); }
+    let domain = vec![("x".to_string(), VariableType::IntegerRange(0, 10)), ("y".to_string(), VariableType::IntegerRange(-2, 12))];
+    Inst { domain, constraints: cs, exprs: vec![], tags: vec!["int-ulp".into()] }
 }
 
 fn s_zero(r: &mut Rng) -> Inst {
@@ -730,6 +838,16 @@ fn fixed() -> Vec<Inst> {
         // known finding C07-float-rounding-var (liveness): a literal product that underflows to a zero coefficient
         Inst { domain: d(vec![("x", real(-INF, INF)), ("y", real(-3.5, 2.0))]),
                constraints: vec![row(add(mul(k(1e-200), mul(k(1e-200), v("x"))), v("y")), eq, k(2.0), 0)], exprs: vec![], tags: t("underflow-coefficient") },
+        // infeasible model whose integer variable is left without an integral point: `enforceable` restores the declared
+        // box, and the auxiliary of the non-convex abs must be declared from THAT box (seeded change C07: `.enforceable`
+        // dropped from `Linearizer::linearize`)
+        Inst { domain: d(vec![("x", VariableType::IntegerRange(0, 10))]),
+               constraints: vec![row(mul(k(2.0), v("x")), ge, k(10.6), 0), row(mul(k(2.0), v("x")), le, k(11.2), 1),
+                                 row(abs(sub(v("x"), k(3.0))), ge, k(1.0), 2)],
+               exprs: vec![abs(sub(v("x"), k(3.0)))], tags: t("empty-integer-range-aux") },
+        // inexact decimal coefficients landing one ulp above an integer (integer rounding needs the tolerance)
+        Inst { domain: d(vec![("x", VariableType::IntegerRange(0, 10))]),
+               constraints: vec![row(add(mul(k(0.1), v("x")), k(0.1)), ge, k(0.4), 0)], exprs: vec![], tags: t("int-ulp-above") },
         // inf - inf in interval sums (NaN repair)
         Inst { domain: d(vec![("x", real(-INF, INF)), ("y", real(0.0, INF))]), constraints: vec![row(sub(v("x"), v("y")), le, k(INF), 0)],
                exprs: vec![add(v("x"), k(INF)), sub(v("y"), v("y")), sub(k(-INF), v("x")), add(v("x"), v("y"))], tags: t("inf-minus-inf") },
@@ -743,7 +861,11 @@ pub fn generate(seed: u64, n: usize, _thorough: bool, _corpus: Option<&str>) -> 
     // different seeds give unrelated case sets
     let mut r = Rng::new(seed).fork();
     let mut cases: Vec<Case> = vec![];
-    for inst in fixed().iter() { cases.push(run(inst)); if let Some(c) = run_lin(inst) { cases.push(c); } }
+    for inst in fixed().iter() {
+        cases.push(run(inst));
+        if let Some(c) = run_lin(inst) { cases.push(c); }
+        if let Some(c) = run_compiled(inst) { cases.push(c); }
+    }
     // the step-limit stream costs 10^4 visits per case on both sides: a fixed small share
     let slow = (n / 60).max(3);
     for j in 0..slow {
@@ -756,6 +878,7 @@ pub fn generate(seed: u64, n: usize, _thorough: bool, _corpus: Option<&str>) -> 
             0 | 1 | 2 => s_affine(&mut r),
             3 | 4 => s_chain(&mut r),
             5 => s_contradiction(&mut r),
+            6 if i % 32 == 22 => s_intulp(&mut r),
             6 | 7 => s_tolerance(&mut r),
             8 | 9 | 10 => s_piecewise(&mut r),
             11 => s_nonaffine(&mut r),
@@ -768,6 +891,7 @@ pub fn generate(seed: u64, n: usize, _thorough: bool, _corpus: Option<&str>) -> 
         if matches!(i % 16, 0 | 1 | 3 | 8 | 9 | 11 | 12 | 14) && r.chance(5, 6) { steer(&mut r, &mut inst); }
         cases.push(run(&inst));
         if i % 3 != 0 { if let Some(c) = run_lin(&inst) { cases.push(c); } }
+        if i % 2 == 0 || matches!(i % 16, 5 | 9) { if let Some(c) = run_compiled(&inst) { cases.push(c); } }
     }
     cases
 }
